@@ -77,6 +77,13 @@ def run(ctx):
     ctx.notes.append("spec mutation (an exiting loop closes the CURRENT listener): ServingWhileRunning -> %s" % (variant.violated or "NOT violated"))
     if not variant.violated:
         raise vlib.Inconclusive("the model variant with the wrong close target does not violate ServingWhileRunning (vacuous model)")
+    # the TLS handshake as a state of its own (the client drives it and may never finish it): with the connection manager
+    # knowing the handshaking transports Stop leaves nothing behind; without (the code before the repair) TLC shows what stays
+    hs = ctx.tlc("MC_C15", "MC_C15_hs.cfg", name="MC_C15_hs", workers=vlib.NCPU, timeout=1200)
+    hsv = ctx.tlc("MC_C15", "MC_C15_hs_noguard.cfg", name="MC_C15_hs_noguard", workers=2, timeout=600, tolerate_violation=True)
+    ctx.notes.append("handshake model: %d distinct states hold StopPostcondition; without the handshake guard -> %s" % (hs.distinct, hsv.violated or "NOT violated"))
+    if not hsv.violated:
+        raise vlib.Inconclusive("the model without the handshake guard does not violate StopPostcondition (vacuous model)")
     scripts = [json.loads(s) for s in mc.scenarios]
     # the same lifecycle with a plain AND a TLS listener and a client of either kind (its handshake is one more parked step)
     mct = ctx.tlc("MC_C15", "MC_C15_tls.cfg", name="MC_C15_tls", workers=vlib.NCPU, timeout=3000)
